@@ -16,9 +16,9 @@ res="$S/results.tsv"; : > "$res"
 run_one() { # name prop patchfile
     local name="$1" prop="$2" patch="$3" variant=plain feat=""
     case "$name" in *detect_enc*) variant=enc; feat="--features enc";; esac
-    ( cd "$S/repo" && git checkout -q -- . && git apply "$patch" ) || { echo -e "$name\t$prop\tPATCH-ERROR\t" >> "$res"; return; }
+    ( cd "$S/repo" && git checkout -q -- . && git apply "$patch" ) || { printf '%s\t%s\tPATCH-ERROR\t\n' "$name" "$prop" >> "$res"; return; }
     if ! ( cd "$S/sim" && cargo build --release --offline $feat >"$S/build.log" 2>&1 ); then
-        echo -e "$name\t$prop\tBUILD-ERROR\t" >> "$res"; ( cd "$S/repo" && git checkout -q -- . ); return
+        printf '%s\t%s\tBUILD-ERROR\t\n' "$name" "$prop" >> "$res"; ( cd "$S/repo" && git checkout -q -- . ); return
     fi
     local out rc
     out=$("$S/sim/target/release/qxsim" check --prop "$prop" --tier quick --evidence "$S/ev.json" --replays "$S/rp" 2>&1); rc=$?
@@ -26,9 +26,9 @@ run_one() { # name prop patchfile
     kind=$(echo "$out" | grep -m1 "^  kind:" | sed 's/^  kind: //')
     detail=$(echo "$out" | grep -m1 "document:" | cut -c1-100)
     case $rc in
-      1) echo -e "$name\t$prop\tCAUGHT\t$kind $detail" >> "$res";;
-      0) echo -e "$name\t$prop\tMISSED\t" >> "$res";;
-      *) echo -e "$name\t$prop\tERROR($rc)\t$(echo "$out" | tail -2 | tr '\n' ' ' | cut -c1-200)" >> "$res";;
+      1) printf '%s\t%s\tCAUGHT\t%s %s\n' "$name" "$prop" "$kind" "$detail" >> "$res";;
+      0) printf '%s\t%s\tMISSED\t\n' "$name" "$prop" >> "$res";;
+      *) printf '%s\t%s\tERROR(%s)\t%s\n' "$name" "$prop" "$rc" "$(echo "$out" | tail -2 | tr '\n' ' ' | cut -c1-200)" >> "$res";;
     esac
     ( cd "$S/repo" && git checkout -q -- . )
 }
@@ -58,4 +58,4 @@ if [ -z "$pat" ]; then
   echo "Totals: $(grep -c CAUGHT "$res") caught, $(grep -c MISSED "$res") missed, $(grep -c ERROR "$res") errors."
 } > /verif/SENSITIVITY.md
 fi
-cat "$res" | awk -F'\t' '{print $3}' | sort | uniq -c
+awk -F'\t' '{print $3}' "$res" | sort | uniq -c
